@@ -207,6 +207,24 @@ pub fn run(ctx: &mut Ctx) {
         }
     }
     if ctx.family_active("lengths") {
+        // many short labels: 127 one-character labels are exactly 255 bytes, one more is too many; a bad label may sit anywhere
+        for n in 100..=140usize {
+            let idx = 20_000 + n as u64;
+            if !ctx.take("lengths", idx) {
+                continue;
+            }
+            let base = vec!["a"; n].join(".");
+            check_string(ctx, "lengths", idx, &base);
+            check_string(ctx, "lengths", idx, &format!("{}.", base));
+            check_string(ctx, "lengths", idx, &format!("{}.-", base));
+            check_string(ctx, "lengths", idx, &format!("{}.bb", base));
+            check_string(ctx, "lengths", idx, &format!("-.{}", base));
+            check_string(ctx, "lengths", idx, &format!("{}.{}", base, "b".repeat(64)));
+            check_string(ctx, "lengths", idx, &base.replacen("a.a", "a..a", 3));
+            ctx.add("names_of_100_to_140_labels", 7);
+        }
+    }
+    if ctx.family_active("lengths") {
         // short names in long texts
         for (i, extra) in [250usize, 254, 255, 256, 300, 1000, 70_000].iter().enumerate() {
             let idx = 10_000 + i as u64;
